@@ -40,7 +40,7 @@ claim("C01",
 
 claim("C20",
       "classification of every range over a Go map by the order-sensitivity of its body and of the slices it fills; census of package-level variables written outside init",
-      "Decides two structural sources of non-determinism and cross-VM leakage in the interpreter core (lexer, parser, token, node, data, runtime, std/php, std/serializer/json): (1) every range over a Go map is order-insensitive by shape, has its result sorted, or is a listed finding; (2) every package-level variable written outside init is reviewed (reset per VM, write-once, host configuration) or a listed finding. Byte-identical output as a whole, time and randomness sources, and the ~40 map ranges in the wider stdlib are not decided.",
+      "Decides two structural sources of non-determinism and cross-VM leakage in the interpreter core and the PHP standard library (lexer, parser, token, node, data, runtime, std/php and every package below it, std/serializer/json): (1) every range over a Go map is order-insensitive by shape, has its result sorted, or is a listed finding; (2) every package-level variable written outside init is reviewed (reset per VM, write-once, host configuration) or a listed finding. A package-level map that becomes a field of an object counts as written. Byte-identical output as a whole, time and randomness sources, and map ranges in std packages outside std/php are not decided.",
       "Go's map iteration order is unspecified (language spec); order-insensitive shapes are enumerated in the evidence; calls inside a classified body are assumed not to print or evaluate script code unless they are the known entry points",
       "DESIGN.md §2 C20")
 
@@ -52,7 +52,7 @@ claim("C09",
 
 claim("C17",
       "table extraction from the switches over reflect kinds; conversion-to-target check of every produced reflect.Value; guard-dominance check of narrowing conversions",
-      "Decides that every reflect.Value built for a registered Go parameter is converted to the parameter's type (so no signature of the supported kinds or of named types makes reflect.Call panic), that unsupported parameter kinds end in a catchable error, that numeric result kinds stay numeric, and that integer narrowing in the generic argument converters is range-checked with an error arm. The converted values themselves, float representability and struct/method registration semantics are not decided.",
+      "Decides that every reflect.Value built for a registered Go parameter is converted to the parameter's type (so no signature of the supported kinds or of named types makes reflect.Call panic), that unsupported parameter kinds end in a catchable error, that numeric result kinds stay numeric, that integer narrowing in the generic argument converters is range-checked with an error arm, that a signed script integer is sign-tested before it becomes an unsigned Go value, and that a Go result is asked IsNil() before Elem(). The converted values themselves, float representability and struct/method registration semantics are not decided.",
       "reflect.Value.Call assignability rule; Go conversion semantics; float-source conversions are treated as ordinary coercion and not judged",
       "DESIGN.md §2 C17")
 
@@ -82,8 +82,8 @@ claim("C02",
 
 claim("C06",
       "cell-origin dataflow for every write of (*ZVal).Value in data/node/runtime/std (slot-list origin vs variable slot vs fresh, RefSlotCount guard recognition, one-level summaries for functions that write a cell parameter); sink table check (copy of *ArrayValue before every container store); nested-path detach check",
-      "Decides the two structural disciplines that value semantics needs under the repository's shallow-copy design: no in-place write of a cell taken from an array's slot list unless guarded by RefSlotCount > 0, and every store of a value into a variable slot, property, array element or array literal copies an *ArrayValue first (clone copies properties through such a store). A violation of either lets a write through one name show through another for some route. It does not decide nested arrays beyond the detach rule (a listed known finding), in-place sort/push internals, or what a program prints.",
-      "cell origins recognised syntactically (X.List[i], range over X.List, FindSlotByIntKey); guards recognised as if-conditions on RefSlotCount; SPL object storages tabled as not armed; sink table confirmed by reading",
+      "Decides the two structural disciplines that value semantics needs under the repository's shallow-copy design: no in-place write of a cell taken from an array's slot list unless guarded by RefSlotCount > 0, and every store of a value into a variable slot, property, array element or array literal copies an *ArrayValue first (clone copies properties through such a store), and a loop that fills several slots makes the array-capable value it stores inside the loop (one copy in many slots aliases the elements). A violation of either lets a write through one name show through another for some route. It does not decide nested arrays beyond the detach rule (a listed known finding), in-place sort/push internals, or what a program prints.",
+      "cell origins recognised syntactically (X.List[i], range over X.List, local aliases `list := X.List`, FindSlotByIntKey); guards recognised as if-conditions on RefSlotCount; SPL object storages tabled as not armed; sink table confirmed by reading",
       "DESIGN.md §2 C06")
 
 claim("C11",
@@ -106,6 +106,6 @@ claim("C16",
 
 claim("C08",
       "edge-coverage check over the same-package call closure of every subtype decision entry point (extends / implements-of-ancestors / interface-extends read inside a loop or recursion); loop-shape check of method lookup; structure check of the `like` test",
-      "Decides that each implementation of the subtype relation (data.Class.Is and its helpers for class, $this and thrown values; node.checkClassIs used by instanceof) consults every kind of hierarchy edge — an implementation that never reads an edge kind cannot honour it — that method lookup starts at the runtime class and walks the whole extends chain, and that `like` requires every target method with equal parameter count through an inheriting lookup. These are necessary conditions only: a wrong comparison inside a walk, and the parent::/self::/static:: resolution that depends on runtime context objects, are not decided (observation: self::class yields the runtime class on the pinned tree).",
+      "Decides that each implementation of the subtype relation (data.Class.Is and its helpers for class, $this and thrown values; node.checkClassIs used by instanceof; every other function of data, node and std/php that steps along the class chain and reads an implements list, e.g. is_a) consults every kind of hierarchy edge — an implementation that never reads an edge kind cannot honour it — that method lookup starts at the runtime class and walks the whole extends chain, and that `like` requires every target method with equal parameter count through an inheriting lookup. These are necessary conditions only: a wrong comparison inside a walk, and the parent::/self::/static:: resolution that depends on runtime context objects, are not decided (observation: self::class yields the runtime class on the pinned tree).",
       "entry points listed by name and resolved through the type checker; closure limited to statically resolved same-package calls",
       "DESIGN.md §2 C08")
